@@ -19,7 +19,7 @@ RULE = (
     "replaced filters created and used in interleaved order (more live configurations than the 128-entry caches "
     "hold), every result compared with the result in a fresh process state; the hit/miss pattern and the identity of "
     "the lexer and parser each parse used are compared with the Lean process model. implicit: liquid.Template() with "
-    ">10 argument sets interleaved. memo: functools.lru_cache against the Lean memo. edge: hand-picked delimiter "
+    ">10 argument sets interleaved. keyclash: pairs and triples of environments whose delimiter sets differ but have the same concatenation (one character moved across the boundary of two neighbouring strings), the same strings in exchanged roles, or five equal strings out of six, used alternately; every result compared with an environment whose lexer is compiled from its own six strings, and the lexer each environment hands out must tokenise a probe as its own delimiters demand. memo: functools.lru_cache against the Lean memo. edge: hand-picked delimiter "
     "sets (every regex metacharacter, delimiters sharing characters with the defaults, letters) x small templates. "
     "Non-trivial: lex/render: the delimiter set differs from the default in all four places and the template has "
     ">= 2 markup pieces; interleave: at least one eviction from the lexer cache happened."
@@ -380,10 +380,28 @@ def gen_env_specs(rng, n):
     return specs
 
 
-def build_env(spec):
+def build_env(spec, isolated=False):
+    """The environment a spec describes.  `isolated=True`: its lexer is compiled from its own six strings on
+    every call, bypassing `get_lexer` (the reference the shared-cache result is compared with)."""
     from liquid import Environment, Mode
 
-    env = Environment(tolerance={"strict": Mode.STRICT, "lax": Mode.LAX, "warn": Mode.WARN}[spec["mode"]], strict_filters=spec["strict_filters"], **envkw(spec["d"]))
+    cls = Environment
+    if isolated:
+        try:
+            from functools import partial
+
+            from liquid.lex import _tokenize_template, compile_liquid_rules
+
+            class _Isolated(Environment):
+                def tokenizer(self):
+                    return partial(_tokenize_template, rules=compile_liquid_rules(
+                        self.tag_start_string, self.tag_end_string, self.statement_start_string, self.statement_end_string,
+                        self.comment_start_string, self.comment_end_string))
+
+            cls = _Isolated
+        except ImportError:  # the lexer was reorganised: fall back to cleared caches only
+            cls = Environment
+    env = cls(tolerance={"strict": Mode.STRICT, "lax": Mode.LAX, "warn": Mode.WARN}[spec["mode"]], strict_filters=spec["strict_filters"], **envkw(spec["d"]))
     for t in spec["drop"]:
         env.tags.pop(t, None)
     if spec["upcase"] == "brackets":
@@ -400,12 +418,64 @@ def use_env(env, spec, tmpl):
     return outcome(lambda: env.from_string(src).render())
 
 
-def clear_caches():
+def _cached_functions():
     from liquid import environment, lex, parser
 
-    lex.get_lexer.cache_clear()
-    parser.get_parser.cache_clear()
-    environment.get_implicit_environment.cache_clear()
+    return [(lex, "get_lexer"), (parser, "get_parser"), (environment, "get_implicit_environment")]
+
+
+def clear_caches():
+    """Empty the process-wide lexer / parser / implicit-environment caches, whatever they are made of:
+    `functools.lru_cache` wrappers are cleared, and so is every private module-level dict of the three modules
+    (a hand-rolled cache)."""
+    for mod, name in _cached_functions():
+        fn = getattr(mod, name, None)
+        if hasattr(fn, "cache_clear"):
+            fn.cache_clear()
+        for k, v in list(vars(mod).items()):
+            if k.startswith("_") and not k.startswith("__") and isinstance(v, dict):
+                v.clear()
+
+
+def cache_counts(mod_name):
+    """(hits, misses, currsize) of a cached function, or None when it is not an lru_cache any more."""
+    for mod, name in _cached_functions():
+        if name == mod_name:
+            fn = getattr(mod, name, None)
+            if hasattr(fn, "cache_info"):
+                i = fn.cache_info()
+                return (i.hits, i.misses, i.currsize)
+    return None
+
+
+def lexes_as_own(env, spec):
+    """Behavioural: the lexer the environment hands out tokenises a probe written with the environment's
+    delimiters exactly as a lexer compiled from those delimiters would (independent of how lexers are cached)."""
+    toks = []
+    for t in (0, 1):
+        src = dp.assemble(spec["d"], IL_TEMPLATES[t])
+        try:
+            toks.append([[k.kind, k.value] for k in env.tokenizer()(src)])
+        except Exception as e:  # noqa: BLE001
+            toks.append(type(e).__name__)
+    want = []
+    for t in (0, 1):
+        ks, err = real_lex_isolated(spec["d"], dp.assemble(spec["d"], IL_TEMPLATES[t]))
+        want.append([[k, v] for k, v, _ in ks] if err is None else "LiquidSyntaxError")
+    return toks == want
+
+
+def real_lex_isolated(d, src):
+    from liquid.exceptions import LiquidSyntaxError
+    from liquid.lex import _tokenize_template, compile_liquid_rules
+
+    toks, err = [], None
+    try:
+        for t in _tokenize_template(src, compile_liquid_rules(*d)):
+            toks.append([t.kind, t.value, t.start_index])
+    except LiquidSyntaxError as e:
+        err = [e.token.kind, e.token.value, e.token.start_index]
+    return toks, err
 
 
 class InterleaveStream(Stream):
@@ -436,8 +506,7 @@ class InterleaveStream(Stream):
         return out
 
     def impl(self, case):
-        from liquid import Mode, lex, parser
-        from liquid.lex import compile_liquid_rules
+        from liquid import Mode, parser
 
         modes = {"strict": Mode.STRICT, "lax": Mode.LAX, "warn": Mode.WARN}
         specs = [dict(s) for s in case["specs"]]
@@ -453,24 +522,23 @@ class InterleaveStream(Stream):
             else:
                 _, i, t = op
                 env = envs[i]
-                l0, p0 = lex.get_lexer.cache_info(), parser.get_parser.cache_info()
+                l0, p0 = cache_counts("get_lexer"), cache_counts("get_parser")
                 r = use_env(env, specs[i], t)
-                l1, p1 = lex.get_lexer.cache_info(), parser.get_parser.cache_info()
-                lexer = env.tokenizer()
-                pattern_ok = lexer.keywords["rules"].pattern == compile_liquid_rules(*[x for x in specs[i]["d"]]).pattern
-                parser_ok = parser.get_parser(env).env is env
+                l1, p1 = cache_counts("get_lexer"), cache_counts("get_parser")
                 results.append([i, t, dict(specs[i]), r])
-                cache_obs.append({"lexer_hit": l1.hits > l0.hits and l1.misses == l0.misses, "parser_hit": p1.hits > p0.hits and p1.misses == p0.misses,
-                                  "lexer_is_own": pattern_ok, "parser_is_own": parser_ok})
-        final_sizes = [lex.get_lexer.cache_info().currsize, parser.get_parser.cache_info().currsize]
-        # the same uses in a fresh process state, one environment at a time
+                cache_obs.append({"lexer_hit": None if l0 is None else (l1[0] > l0[0] and l1[1] == l0[1]),
+                                  "parser_hit": None if p0 is None else (p1[0] > p0[0] and p1[1] == p0[1]),
+                                  "lexer_is_own": lexes_as_own(env, specs[i]), "parser_is_own": parser.get_parser(env).env is env})
+        lc, pc = cache_counts("get_lexer"), cache_counts("get_parser")
+        final_sizes = [lc[2] if lc else 0, pc[2] if pc else 0]
+        # the same uses one environment at a time: caches emptied, and the lexer compiled from the environment's own strings
         fresh = []
         for i, t, spec, _ in results:
             clear_caches()
-            fresh.append(use_env(build_env(spec), spec, t))
+            fresh.append(use_env(build_env(spec, isolated=True), spec, t))
         clear_caches()
         bad = [[k, results[k][0], results[k][1], results[k][3], fresh[k]] for k in range(len(results)) if results[k][3] != fresh[k]]
-        evictions = sum(1 for c in cache_obs if not c["lexer_hit"]) - len({tuple(s["d"]) for s in specs})
+        evictions = sum(1 for c in cache_obs if c["lexer_hit"] is False) - len({tuple(s["d"]) for s in specs})
         return {"uses": len(results), "bad": bad[:3], "cache": cache_obs, "sizes": final_sizes, "evictions": max(0, evictions),
                 "outcomes": sorted({("ok" if "ok" in r[3] else r[3]["err"]) for r in results})}
 
@@ -508,14 +576,15 @@ class InterleaveStream(Stream):
     def oracle(self, case, obs):
         if obs["bad"]:
             k, i, t, got, exp = obs["bad"][0]
-            return ("interleave|result-differs", f"use {k}: environment {i} template {t} gave {str(got)[:100]}; alone it gives {str(exp)[:100]}")
+            d = case["specs"][i]["d"]
+            return (f"{self.name}|result-differs", f"use {k}: environment {i} (delimiters {d}) template {t} gave {str(got)[:100]}; alone it gives {str(exp)[:100]}")
         for k, c in enumerate(obs["cache"]):
             if not c["lexer_is_own"]:
-                return ("interleave|foreign-lexer", f"use {k} got a lexer compiled for other delimiters")
+                return (f"{self.name}|foreign-lexer", f"use {k} got a lexer that does not tokenise with the environment's own delimiters")
             if not c["parser_is_own"]:
-                return ("interleave|foreign-parser", f"use {k} got a parser bound to another environment")
+                return (f"{self.name}|foreign-parser", f"use {k} got a parser bound to another environment")
         if obs["sizes"][0] > 128 or obs["sizes"][1] > 128:
-            return ("interleave|cache-size", f"cache sizes {obs['sizes']}")
+            return (f"{self.name}|cache-size", f"cache sizes {obs['sizes']}")
         return None
 
     def nontrivial(self, case, obs):
@@ -529,6 +598,99 @@ class InterleaveStream(Stream):
         for i in range(len(s)):
             if s[i][0] != "new":
                 yield {"specs": case["specs"], "sched": s[:i] + s[i + 1 :]}
+
+
+def clash_variants(d):
+    """Delimiter sets that differ from d but agree with it on everything a sloppy cache key might keep:
+    the same concatenation (a character moved across the boundary between two neighbouring strings), the same
+    set of strings in other roles, or equality on five of the six strings."""
+    n = 6 if d[4] else 4
+    out = []
+    for i in range(n - 1):
+        a, b = d[i], d[i + 1]
+        if len(a) >= 2:
+            v = list(d)
+            v[i], v[i + 1] = a[:-1], a[-1] + b
+            out.append(["shift-right", v])
+        if len(b) >= 2:
+            v = list(d)
+            v[i], v[i + 1] = a + b[0], b[1:]
+            out.append(["shift-left", v])
+    v = list(d)
+    v[0], v[2], v[1], v[3] = d[2], d[0], d[3], d[1]
+    out.append(["roles-tag-output", v])
+    v = list(d)
+    v[0], v[1], v[2], v[3] = d[1], d[0], d[3], d[2]
+    out.append(["roles-start-end", v])
+    if d[4]:
+        v = list(d)
+        v[4], v[5], v[2], v[3] = d[2], d[3], d[4], d[5]
+        out.append(["roles-output-comment", v])
+    for i in range(n):
+        for alt in (d[i] + "~", "~" + d[i], d[i][::-1]):
+            if alt != d[i]:
+                v = list(d)
+                v[i] = alt
+                out.append([f"one-differs-{i}", v])
+                break
+    ok = []
+    for kind, v in out:
+        if v != list(d) and dp.delims_ok(v) and not any(dp.collides(v, t) for t in IL_TEMPLATES):
+            ok.append([kind, v])
+    return ok
+
+
+CLASH_BASES = [
+    ["<", "?>", "{{", "}}", "", ""], ["<?", "?>", "<=", "=>", "", ""], ["[%", "%]", "[[", "]]", "", ""], ["{%", "%}", "{{", "}}", "{#", "#}"],
+    ["(:", ":)", "(=", "=)", "(*", "*)"], ["@@", "$$", "@$", "$@", "", ""], ["{%", "%}", "{{", "}}", "", ""],
+]
+
+
+class KeyClashStream(InterleaveStream):
+    """Two or three environments whose delimiter sets differ but would be confused by a cache key that is
+    anything less than the six strings in their roles, used alternately."""
+
+    name = "keyclash"
+
+    def cases(self, ctx):
+        rng = ctx.rng_for("keyclash")
+        bases = [list(b) for b in CLASH_BASES]
+        for _ in range(ctx.scale(6, 40)):
+            d = dp.gen_delims(rng, IL_TEMPLATES, rng.chance(40), tries=200)
+            if d is not None and all(len(x) >= 2 for x in d if x):
+                bases.append(d)
+        out = []
+        for b in bases:
+            if not dp.delims_ok(b) or any(dp.collides(b, t) for t in IL_TEMPLATES):
+                continue
+            vs = clash_variants(b)
+            groups = [[["base", b], v] for v in vs]
+            shifts = [v for v in vs if v[0].startswith("shift")]
+            for i in range(0, len(shifts) - 1, 2):
+                groups.append([["base", b], shifts[i], shifts[i + 1]])
+            for g in groups:
+                order = list(range(len(g)))
+                if rng.chance(50):
+                    order.reverse()  # the variant is used first
+                specs = [{"d": g[j][1], "mode": "strict", "drop": [], "upcase": None, "strict_filters": True} for j in order]
+                sched = [["new", j] for j in range(len(specs))]
+                for rnd in range(3):
+                    for j in range(len(specs)):
+                        sched.append(["use", j, (rnd + j) % 2])
+                out.append({"specs": specs, "sched": sched, "kinds": [g[j][0] for j in order]})
+        return out
+
+    def nontrivial(self, case, obs):
+        return True
+
+    def tags(self, case, obs):
+        return sorted({k.split("-")[0] + ("-" + k.split("-")[1] if k.startswith("roles") else "") for k in case["kinds"] if k != "base"}) + [f"envs{len(case['specs'])}"]
+
+    def shrink_candidates(self, case):
+        s = case["sched"]
+        for i in range(len(s) - 1, -1, -1):
+            if s[i][0] == "use":
+                yield {"specs": case["specs"], "sched": s[:i] + s[i + 1 :], "kinds": case["kinds"]}
 
 
 class ImplicitStream(Stream):
@@ -567,7 +729,8 @@ class ImplicitStream(Stream):
 
         clear_caches()
         got = [self._use(case["cfgs"][i], t) for i, t in case["sched"]]
-        size = environment.get_implicit_environment.cache_info().currsize
+        c = cache_counts("get_implicit_environment")
+        size = c[2] if c else 0
         exp = []
         for i, t in case["sched"]:
             clear_caches()
@@ -636,4 +799,4 @@ class MemoStream(Stream):
 
 
 def streams(ctx):
-    return [MemoStream(), LexStream(), EdgeStream(), RenderStream(), InterleaveStream(), ImplicitStream()]
+    return [MemoStream(), LexStream(), EdgeStream(), RenderStream(), KeyClashStream(), InterleaveStream(), ImplicitStream()]
